@@ -365,6 +365,9 @@ func (p *pipeline) submit(a *Action) (string, string) {
 			if lerr != nil {
 				return "C20/long-form", fmt.Sprintf("long-form DID of an accepted create does not resolve before anchoring: %v", lerr)
 			}
+			if lr == nil || lr.Document == nil {
+				return "C20/long-form", "long-form DID of an accepted create does not resolve before anchoring: ResolveDocument returned neither a document nor an error"
+			}
 			got := norm(lr.Document).(map[string]interface{})
 			// the DID string may be the long or the short form (the statement allows it to differ); everything else must agree
 			gid, _ := got["id"].(string)
@@ -453,6 +456,9 @@ func (p *pipeline) compareAll() (string, string) {
 		}
 		if err != nil {
 			return "C20/resolution", fmt.Sprintf("DID %d (%s) with %d anchored and %d unpublished accepted operations does not resolve: %v", i, did, d.anchoredN, unpubN, err)
+		}
+		if rr == nil || rr.Document == nil {
+			return "C20/resolution", fmt.Sprintf("DID %d (%s) with %d anchored and %d unpublished accepted operations does not resolve: ResolveDocument returned neither a document nor an error", i, did, d.anchoredN, unpubN)
 		}
 		got := norm(rr.Document).(map[string]interface{})
 		want := external(doc, did)
